@@ -402,7 +402,10 @@ class SiteAnalysis:
                         "never reached: " + m) for c, m in body_issues]
         if k in ("none", "fallthrough"):
             if alt != NONE and w.alt.get(root) != NONE:
-                return [("unsupported", "returns None for a non-null value")]
+                out_ = [("unsupported", "returns None for a non-null value")]
+                if NONE not in members(U):
+                    out_.append(("illtyped", f"returns None, which is not a member of {show(U)}"))
+                return out_
             return []
         if k == "pass":
             if leaf.path != root:
